@@ -6,7 +6,9 @@
 package jsonschema
 
 import (
+	"errors"
 	"hash/maphash"
+	"net/url"
 	"reflect"
 	"slices"
 )
@@ -455,8 +457,22 @@ func verifOrdersOff() {}
 // VerifResolveSummary resolves s and renders every result of resolution that Validate
 // consults (bases, URIs, $ref / $dynamicRef targets, anchors, the URI table) keyed by the
 // JSON Pointer path of each subschema. A function of s alone if Resolve is deterministic.
-func VerifResolveSummary(s *Schema) string {
-	rs, err := s.Resolve(nil)
+func VerifResolveSummary(s *Schema) string { return verifResolveSummary(s, nil) }
+
+// VerifResolveSummaryWith is VerifResolveSummary with a loader that serves docs (URI -> parsed
+// document) and the base URI http://h/root.json.
+func VerifResolveSummaryWith(s *Schema, docs map[string]*Schema) string {
+	return verifResolveSummary(s, &ResolveOptions{BaseURI: "http://h/root.json", Loader: func(uri *url.URL) (*Schema, error) {
+		d := docs[uri.String()]
+		if d == nil {
+			return nil, errors.New("no such document")
+		}
+		return d, nil
+	}})
+}
+
+func verifResolveSummary(s *Schema, opts *ResolveOptions) string {
+	rs, err := s.Resolve(opts)
 	verifOrdersOff()
 	if err != nil {
 		return "error"
@@ -468,7 +484,7 @@ func VerifResolveSummary(s *Schema) string {
 		if info := rs.resolvedInfos[t]; info != nil {
 			return "@" + info.path
 		}
-		return "?"
+		return "remote:" + t.Title // a schema of a loaded document, identified by its title
 	}
 	var lines []string
 	for t := range s.all() {
@@ -561,6 +577,17 @@ func VerifKernelForShared(o *Schema) bool {
 		if v.Type != o.Type || !verifSameStrings(v.Types, o.Types) {
 			return false
 		}
+		// subschemas of the override are copied too
+		for _, r := range []*Schema{p, q, v} {
+			if (o.Items != nil && r.Items == o.Items) || (o.Not != nil && r.Not == o.Not) {
+				return false
+			}
+			for k, ps := range o.Properties {
+				if r.Properties[k] == ps {
+					return false
+				}
+			}
+		}
 	}
 	return verifSameStrings(s1.Properties["p"].Types, s2.Properties["p"].Types) && s1.Properties["p"].Type == s2.Properties["p"].Type
 }
@@ -600,4 +627,10 @@ func VerifKernelPropertyOrderAfterFailure(pa, pb, pc, pd bool, order string) boo
 		return false
 	}
 	return VerifKernelPropertyOrder(pa, pb, pc, pd, order)
+}
+
+// VerifKernelDerefBigIndex: an array index written with the digits prefix+tail, far beyond
+// the array (and around the limits of the integer types), designates nothing.
+func VerifKernelDerefBigIndex(prefix, tail string) bool {
+	return VerifKernelDeref(0, "anyOf", true, prefix+tail)
 }
